@@ -110,6 +110,19 @@ theorem gphp_spec_ofEdges (l r : Nat) (es : List (Nat × Nat)) (B : BipG)
 example : ∃ B, BipG.ofEdges 2 3 [(2, 1), (1, 2), (1, 1), (2, 1)] = .ok B ∧ B.rnbrs 1 = [1, 2] ∧
     B.lnbrs 3 = [] := ⟨_, rfl, rfl, rfl⟩
 
+/-- non-vacuity of the specification on that graph: pigeon 1 in hole 2, pigeon 2 in hole 1 -/
+example : ∃ B, BipG.ofEdges 2 3 [(2, 1), (1, 2), (1, 1), (2, 1)] = .ok B ∧
+    GPHPSpec B true false (fun u v => (u = 1 ∧ v = 2) ∨ (u = 2 ∧ v = 1)) := by
+  refine ⟨_, rfl, ?_, ?_, ?_, by simp⟩
+  · intro u h1 h2
+    have h2' : u ≤ 2 := h2
+    have : u = 1 ∨ u = 2 := by omega
+    rcases this with rfl | rfl
+    · exact ⟨2, by decide, Or.inl ⟨rfl, rfl⟩⟩
+    · exact ⟨1, by decide, Or.inr ⟨rfl, rfl⟩⟩
+  · intro v _ _ u _ u' _ e e'; omega
+  · intro _ u _ _ v _ v' _ e e'; omega
+
 /-- the specification only looks at the edges of the graph -/
 theorem GPHPSpec_congr {B : BipG} (hg : GoodBip B) {f o : Bool} {R R' : Nat → Nat → Prop}
     (h : ∀ u v, 1 ≤ u → u ≤ B.l → v ∈ B.rnbrs u → (R u v ↔ R' u v)) :
